@@ -23,6 +23,7 @@ func init() {
 		vcRunC13EmfileShutdown,
 		vcRunC13EmfileLong,
 		vcRunC13IdleThenBusy,
+		vcRunC13PendingOutput,
 	}
 }
 
@@ -805,4 +806,87 @@ func vcRunC13IdleThenBusy(t *vcTrial) {
 	rec.waitClosed(2 * time.Second)
 	srv.Stop(2 * time.Second)
 	t.Nontrivial, t.Sig = true, "idle-then-busy"
+}
+
+// vcRunC13PendingOutput: "leaves busy ones running" - a connection is busy while output is pending
+// (written from outside any handler, the client reads slowly). Shutdown with a deadline may not
+// close it: it returns the context's error, the connection stays active, and once the client
+// drains it receives every byte.
+func vcRunC13PendingOutput(t *vcTrial) {
+	r := t.R
+	t.P("variant", "pending output at Shutdown")
+	srv, err := vcStartServer(vcSrvOpts{Network: "tcp", NCloseCb: 1, OnRequest: func(ctx context.Context, rec *vcConnRec) error {
+		rec.Conn.Reader().Skip(rec.Conn.Reader().Len())
+		return nil
+	}})
+	if err != nil {
+		t.Inconclusive("server start: %v", err)
+		return
+	}
+	cli, err := vcDialRaw(srv)
+	if err != nil {
+		srv.Stop(time.Second)
+		t.Inconclusive("dial: %v", err)
+		return
+	}
+	defer cli.Close()
+	rec := srv.nextAccepted(3 * time.Second)
+	if rec == nil {
+		srv.Stop(time.Second)
+		t.Inconclusive("accept not seen")
+		return
+	}
+	vcSetBuf(rec.FD, 8192, 0)
+	total := r.rng(2<<20, 6<<20)
+	seed := r.next()
+	payload := make([]byte, total)
+	vfFill(payload, seed, 0)
+	wdone := make(chan error, 1)
+	go func() {
+		_, err := rec.Conn.Write(payload) // blocks in Flush: the client is not reading yet
+		wdone <- err
+	}()
+	// wait until the writer is parked with output pending
+	if !vcWaitPoint(t.Mark, vpWaitFlushBeforeBlock, rec.ID, 3*time.Second) {
+		t.Inconclusive("the writer did not park")
+		srv.Stop(time.Second)
+		return
+	}
+	pending := vcInner(rec.Conn).outputBuffer.Len()
+	ctx, cancel := context.WithTimeout(context.Background(), time.Duration(r.rng(60, 200))*time.Millisecond)
+	shErr := srv.Evl.Shutdown(ctx)
+	cancel()
+	active := rec.Conn.IsActive()
+	if shErr == nil {
+		t.Violate("C13", "nil_with_tracked", "Shutdown returned nil while a connection had %d bytes of output pending (its writer parked in Flush, the client not reading): it was treated as idle", pending)
+	} else if !active {
+		t.Violate("C13", "busy_closed", "a connection with %d bytes of output pending was closed by Shutdown (Shutdown returned %v)", pending, shErr)
+	}
+	// the client drains now: a connection that was left running delivers everything
+	got := 0
+	buf := make([]byte, 256<<10)
+	cli.SetReadDeadline(time.Now().Add(20 * time.Second))
+	for got < total {
+		n, err := cli.Read(buf)
+		if n > 0 {
+			if i := vfCheck(buf[:n], seed, uint64(got)); i >= 0 && !t.Violated() {
+				t.Violate("C13", "stream_corrupted", "byte %d of the response differs", got+i)
+			}
+			got += n
+		}
+		if err != nil {
+			break
+		}
+	}
+	if got != total && !t.Violated() {
+		t.Violate("C13", "busy_closed", "a response of %d bytes was being written when Shutdown ran into its deadline; the client, draining afterwards, received %d: the connection was not left running", total, got)
+	}
+	select {
+	case <-wdone:
+	case <-time.After(5 * time.Second):
+	}
+	rec.Conn.Close()
+	srv.Stop(2 * time.Second)
+	t.Stat("pending_output_trials", 1)
+	t.Nontrivial, t.Sig = pending > 0, "pending-output"
 }
